@@ -44,8 +44,58 @@ def run(ctx):
         "NOT decided: equality of the re-parsed interface for all parameter lists; nothing about types, "
         "descriptions or default values (value level)",
     ]
-    for rule in (_align_parse, _align_emit, _shape, _keywords, _optional, _falsy, _order_rule, _escape):
+    for rule in (_align_parse, _align_emit, _shape, _keywords, _optional, _falsy, _order_rule, _escape, _exacttype):
         ctx.section(rule, ctx, index)
+
+
+def _exacttype(ctx, index, rule="C02.exacttype"):
+    """
+    A default value is classified by `isinstance(default, (int, float, ...))` throughout the package, and `bool` is an
+    `int` for isinstance. An EXACT type test — `type(default) in (float, int)`, `type(default) is int`,
+    `type(default) == int` — that lists int but not bool sends True / False down the other arm (the "this is source
+    code" arm: `ast.parse(True)` raises, the fallback quotes it as the string '```True```'), so a bool default comes
+    back as a str. Zero such tests exist today (the count of isinstance-classified defaults is recorded), so a tiny
+    built-in example keeps the recogniser honest.
+    """
+
+    def exact_int_test(n):
+        if not (isinstance(n, ast.Compare) and len(n.ops) == 1 and isinstance(n.ops[0], (ast.In, ast.NotIn, ast.Is, ast.IsNot, ast.Eq, ast.NotEq))):
+            return None
+        left, right = n.left, n.comparators[0]
+        if not (isinstance(left, ast.Call) and isinstance(left.func, ast.Name) and left.func.id == "type" and len(left.args) == 1):
+            left, right = right, left
+        if not (isinstance(left, ast.Call) and isinstance(left.func, ast.Name) and left.func.id == "type" and len(left.args) == 1):
+            return None
+        names = set()
+        for x in ast.walk(right):
+            if isinstance(x, ast.Name):
+                names.add(x.id)
+        if "int" in names and "bool" not in names:
+            return left.args[0]
+        return None
+
+    probe = ast.parse("a = 1 if type(p['default']) in (float, int) else 2\nb = isinstance(p['default'], (float, int))").body
+    ctx.need(exact_int_test(probe[0].value.test) is not None and exact_int_test(probe[1].value) is None, "the exact-type recogniser disagrees with its own example")
+    n_isinst = n_exact = 0
+    for f in index.nontest_funcs():
+        for n in iter_own(f.node):
+            if isinstance(n, ast.Call) and isinstance(n.func, ast.Name) and n.func.id == "isinstance" and len(n.args) == 2 and "default" in norm(n.args[0]) and "int" in norm(n.args[1]):
+                n_isinst += 1
+            subj = exact_int_test(n)
+            if subj is None or "default" not in norm(subj):
+                continue
+            n_exact += 1
+            ctx.ob(
+                rule,
+                f,
+                n,
+                False,
+                "`{}` is an exact type test that names int but not bool: type(True) is bool, so a bool default takes the other "
+                "arm than every isinstance-based sibling sends it to, and (on the emit side) comes back as the string "
+                "'```True```' instead of True".format(short(n, 70)),
+            )
+    ctx.count("isinstance_classified_defaults", n_isinst)
+    ctx.count("exact_type_tests_on_defaults", n_exact)
 
 
 # ------------------------------------------------------------------- align
@@ -360,6 +410,115 @@ def _shape(ctx, index):
         ctx.ob("C02.shape", cls, "class parser handles {} nodes".format(b), ok, "" if ok else "param2ast emits {} but the class parser's body loop has no isinstance arm for it".format(b), line=cls.node.lineno)
 
 
+def keyword_roles(index, f):
+    """
+    {local of f: keyword names its definition looks up} — `next(... if kw.arg == "K")` in place, a lookup helper called
+    with the constant "K", or `D["K"]` / `D.get("K")` on a dict keyed by the keyword names
+    """
+    from ..core import RefGraph
+    from ..region import Region
+
+    reg = Region(index, RefGraph(index), f, allow_passed=True)
+    role = {}
+    for nm, ds in local_defs(f).items():
+        for d in ds:
+            if not isinstance(d, ast.AST):
+                continue
+            for c in ast.walk(d):
+                if isinstance(c, ast.Compare) and len(c.ops) == 1 and isinstance(c.ops[0], ast.Eq) and norm(c.left).endswith(".arg") and isinstance(c.comparators[0], ast.Constant):
+                    role.setdefault(nm, set()).add(c.comparators[0].value)
+            # helper / dict spellings: the constants this one definition reads
+            got = set()
+            for c in ast.walk(d):
+                if isinstance(c, ast.Call):
+                    h = index.funcs.get(index.callee(f.mod, c, f) or "")
+                    if h is not None and h in reg.funcs:
+                        for n in iter_own(h.node):
+                            if isinstance(n, ast.Compare) and len(n.ops) == 1 and isinstance(n.ops[0], ast.Eq) and any(isinstance(x, ast.Attribute) and x.attr == "arg" for x in (n.left, n.comparators[0])):
+                                for x in (n.left, n.comparators[0]):
+                                    if isinstance(x, ast.Name) and x.id in h.params:
+                                        a = index.bound_args(f.mod, c, f).get(x.id)
+                                        if isinstance(a, ast.Constant) and isinstance(a.value, str):
+                                            got.add(a.value)
+                    if isinstance(c.func, ast.Attribute) and c.func.attr in ("get", "pop") and isinstance(c.func.value, ast.Name) and c.args and isinstance(c.args[0], ast.Constant) and c.func.value.id in _keyword_dicts(f):
+                        got.add(c.args[0].value)
+                elif isinstance(c, ast.Subscript) and isinstance(c.value, ast.Name) and isinstance(c.slice, ast.Constant) and c.value.id in _keyword_dicts(f):
+                    got.add(c.slice.value)
+            if got:
+                role.setdefault(nm, set()).update(x for x in got if isinstance(x, str))
+    return role
+
+
+def _keyword_dicts(f):
+    """locals of f bound to a dict keyed by keyword names"""
+    out = set()
+    for n in iter_own(f.node):
+        if isinstance(n, (ast.Assign, ast.AnnAssign)) and n.value is not None:
+            t = n.targets[0] if isinstance(n, ast.Assign) else n.target
+            v = n.value
+            keyed = False
+            if isinstance(v, ast.DictComp):
+                keyed = isinstance(v.key, ast.Attribute) and v.key.attr == "arg"
+            elif isinstance(v, ast.Call) and norm(v.func) in ("dict", "OrderedDict") and v.args:
+                for x in ast.walk(v.args[0]):
+                    if isinstance(x, ast.Tuple) and x.elts and isinstance(x.elts[0], ast.Attribute) and x.elts[0].attr == "arg":
+                        keyed = True
+            if keyed and isinstance(t, ast.Name):
+                out.add(t.id)
+    return out
+
+
+def keywords_read_region(index, reg):
+    """
+    keyword names a reader looks up, in every spelling: `<kw>.arg == "K"` in place; a lookup helper
+    `h(call, "K")` whose body compares `<kw>.arg == <its parameter>`; a dict built from the keywords
+    (`{kw.arg: kw.value for kw in call.keywords}` / `dict((kw.arg, ...) for ...)`) and read with `D["K"]`,
+    `D.get("K")`, `D.pop("K")`, `"K" in D`.
+    """
+    out = set()
+    for h in reg.funcs:
+        out |= keywords_read(h)
+        # (a) lookup helper: the compared side is a parameter -> the constants its call sites pass
+        for n in iter_own(h.node):
+            if isinstance(n, ast.Compare) and len(n.ops) == 1 and isinstance(n.ops[0], ast.Eq):
+                sides = [n.left, n.comparators[0]]
+                if any(isinstance(x, ast.Attribute) and x.attr == "arg" for x in sides):
+                    for x in sides:
+                        if isinstance(x, ast.Name) and x.id in h.params:
+                            for g in reg.funcs:
+                                for c in iter_own(g.node):
+                                    if isinstance(c, ast.Call) and index.callee(g.mod, c, g) == h.qual:
+                                        a = index.bound_args(g.mod, c, g).get(x.id)
+                                        if isinstance(a, ast.Constant) and isinstance(a.value, str):
+                                            out.add(a.value)
+        # (b) a dict keyed by the keyword names
+        dicts = set()
+        for n in iter_own(h.node):
+            if isinstance(n, (ast.Assign, ast.AnnAssign)) and n.value is not None:
+                t = n.targets[0] if isinstance(n, ast.Assign) else n.target
+                v = n.value
+                keyed = False
+                if isinstance(v, ast.DictComp):
+                    keyed = isinstance(v.key, ast.Attribute) and v.key.attr == "arg"
+                elif isinstance(v, ast.Call) and norm(v.func) in ("dict", "OrderedDict") and v.args:
+                    for x in ast.walk(v.args[0]):
+                        if isinstance(x, ast.Tuple) and x.elts and isinstance(x.elts[0], ast.Attribute) and x.elts[0].attr == "arg":
+                            keyed = True
+                if keyed and isinstance(t, ast.Name):
+                    dicts.add(t.id)
+        for n in iter_own(h.node):
+            k = None
+            if isinstance(n, ast.Subscript) and isinstance(n.value, ast.Name) and n.value.id in dicts:
+                k = n.slice
+            elif isinstance(n, ast.Call) and isinstance(n.func, ast.Attribute) and n.func.attr in ("get", "pop", "__getitem__") and isinstance(n.func.value, ast.Name) and n.func.value.id in dicts and n.args:
+                k = n.args[0]
+            elif isinstance(n, ast.Compare) and len(n.ops) == 1 and isinstance(n.ops[0], (ast.In, ast.NotIn)) and isinstance(n.comparators[0], ast.Name) and n.comparators[0].id in dicts:
+                k = n.left
+            if isinstance(k, ast.Constant) and isinstance(k.value, str):
+                out.add(k.value)
+    return out
+
+
 def _keywords(ctx, index):
     emit = index.func("cdd.shared.ast_utils.param2argparse_param")
     pop = index.func("cdd.argparse_function.utils.emit_utils.parse_out_param")
@@ -369,7 +528,7 @@ def _keywords(ctx, index):
     g_ = RefGraph(index)
     # the emitter / the reader and the private helpers only they use
     w = set().union(*(keywords_written(h) for h in Region(index, g_, emit, allow_passed=True).funcs))
-    r = set().union(*(keywords_read(h) for h in Region(index, g_, pop, allow_passed=True).funcs))
+    r = keywords_read_region(index, Region(index, g_, pop, allow_passed=True))
     ctx.count("argparse_keywords_written", len(w))
     ctx.count("argparse_keywords_read", len(r))
     for k in CORE_KEYWORDS:
@@ -397,12 +556,7 @@ def _optional(ctx, index):
             n_sites += 1
             roots = {x.id for x in ast.walk(n.test) if isinstance(x, ast.Name)}
             # the locals that hold the `required=` and `type=` keywords of the add_argument call, whatever they are called
-            role = {}
-            for nm, ds in local_defs(pop).items():
-                for d in ds:
-                    for c in ast.walk(d):
-                        if isinstance(c, ast.Compare) and len(c.ops) == 1 and isinstance(c.ops[0], ast.Eq) and norm(c.left).endswith(".arg") and isinstance(c.comparators[0], ast.Constant):
-                            role.setdefault(nm, set()).add(c.comparators[0].value)
+            role = keyword_roles(index, pop)
             req = {nm for nm, r in role.items() if "required" in r}
             typ = {nm for nm, r in role.items() if "type" in r}
             ctx.need(req and typ, "cannot find the locals of parse_out_param that hold the required= / type= keywords")
